@@ -142,13 +142,15 @@ Proof. unfold swapb. destruct swp; [apply zlen_rev|reflexivity]. Qed.
 
 Lemma fread_bytes_exact bs tail : fread_bytes (zlen bs) (bs ++ tail) = Ok (bs, tail).
 Proof.
-  unfold fread_bytes. rewrite zlen_app. pose proof (zlen_nonneg bs). pose proof (zlen_nonneg tail).
-  destruct ((0 <=? zlen bs) && (zlen bs <=? zlen bs + zlen tail)) eqn:C; [|lia].
-  now rewrite ztake_app_exact, zdrop_app_exact.
+  unfold fread_bytes. pose proof (zlen_nonneg bs). destruct (zlen bs <? 0) eqn:C; [lia|].
+  unfold zlen. rewrite Nat2Z.id, split_at_app. reflexivity.
 Qed.
 
 Lemma fread_bytes_short n s : zlen s < n -> fread_bytes n s = Err SBDF_ERROR_IO.
-Proof. intros H. unfold fread_bytes. destruct ((0 <=? n) && (n <=? zlen s)) eqn:C; [lia|reflexivity]. Qed.
+Proof.
+  intros H. unfold fread_bytes. destruct (n <? 0) eqn:C; [reflexivity|].
+  rewrite split_at_short; [reflexivity|]. unfold zlen in H. lia.
+Qed.
 
 Lemma rspec_fread bs : rspec (fread_bytes (zlen bs)) bs bs.
 Proof.
